@@ -312,7 +312,7 @@ def r02_3(ctx: Ctx) -> None:
     # multipliers: each scales its own field, at every scaling site
     sites = []
     for rel, qual in ((RP, "Parser.__init__"), (CP, "Ruleset.__post_init__")):
-        func = ctx.fn(rel, qual)
+        func = ctx.fn(rel, qual, inline=True)
         for node in walk_local(func):
             if isinstance(node, ast.Assign) and len(node.targets) == 1 and isinstance(node.targets[0], ast.Attribute) \
                     and node.targets[0].attr in ("cutoff", "neighbourhood") and "multipliers" in txt(node.value):
@@ -404,105 +404,131 @@ def r02_3(ctx: Ctx) -> None:
 
 
 REJECTIONS = [
-    # (function, substring of the condition, description)
-    ("Parser.__init__", "unknown", "identifiers without a signature are rejected"),
-    ("Parser.__init__", "rule.name in self.rules_by_name", "a second rule with an existing name is rejected"),
-    ("Parser.__init__", "name in self.aliases", "a second alias with an existing name is rejected"),
-    ("Parser._verify_alias_name", "name in self.signature_names", "an alias named like a signature is rejected"),
-    ("Parser._verify_alias_name", "name in self.rules_by_name", "an alias named like a rule is rejected"),
-    ("Parser._verify_alias_name", "name in self.valid_categories", "an alias named like a category is rejected"),
-    ("Parser._verify_alias_name", "TokenTypes.classify(name) != TokenTypes.IDENTIFIER", "an alias name must be an identifier"),
-    ("Parser._consume", "self.current_token.type != expected", "a token of an unexpected type is rejected"),
-    ("Parser._consume", "self.current_token is None", "running out of tokens is rejected"),
-    ("Parser._parse_rule", "category not in self.valid_categories", "an unknown category is rejected"),
-    ("Parser._parse_rule", "self.current_token.type not in _STARTERS", "trailing symbols after a rule are rejected"),
-    ("Parser._parse_superiors", "name not in self.rules_by_name", "a superior that is not yet defined is rejected"),
-    ("Parser._parse_superiors", "len(superiors) != len(set(superiors))", "duplicate superiors are rejected"),
-    ("Parser._parse_conditions", "self.current_token.type != TokenTypes.GROUP_CLOSE", "an unbalanced group is rejected"),
-    ("Parser._parse_conditions", "self.current_token is None", "missing conditions are rejected"),
-    ("Parser._parse_single_condition", "self.current_token is None", "a rule ending in 'not' is rejected"),
-    ("Parser._parse_cds", "not conditions", "an empty cds() is rejected"),
-    ("Conditions.__init__", "operand in unique_operands", "a repeated operand is rejected"),
-    ("MinimumCondition.__init__", "len(self.options) != len(options)", "repeated minimum() options are rejected"),
-    ("MinimumCondition.__init__", "count < 1", "minimum() with a count below 1 is rejected"),
-    ("ScoreCondition.__init__", "score < 0", "a negative minscore is rejected"),
-    ("DetectionRule.__init__", "not conditions.contains_positive_condition()", "conditions without a positive requirement are rejected"),
-    ("DetectionRule.__init__", "not extenders.contains_positive_condition()", "extenders without a positive requirement are rejected"),
+    # (function, alternatives `regex:T|F` over the literals on the path to a raise (raw and with locals resolved;
+    #  negated comparisons are folded: `a not in b` is `a in b`:F, `a != b` is `a == b`:F), description)
+    ("Parser.__init__", [r"find_condition_identifiers\(self\._consumed_tokens\) - self\.signature_names:T"],
+     "identifiers without a signature are rejected"),
+    ("Parser.__init__", [r"\w+\.name in self\.rules_by_name:T"], "a second rule with an existing name is rejected"),
+    ("Parser.__init__", [r"\w+ in self\.aliases:T"], "a second alias with an existing name is rejected"),
+    ("Parser._verify_alias_name", [r"\w+ in self\.signature_names:T"], "an alias named like a signature is rejected"),
+    ("Parser._verify_alias_name", [r"\w+ in self\.rules_by_name:T"], "an alias named like a rule is rejected"),
+    ("Parser._verify_alias_name", [r"\w+ in self\.valid_categories:T"], "an alias named like a category is rejected"),
+    ("Parser._verify_alias_name", [r"TokenTypes\.classify\(\w+\) == TokenTypes\.IDENTIFIER:F"], "an alias name must be an identifier"),
+    ("Parser._consume", [r"self\.current_token\.type == expected:F", r"expected == self\.current_token\.type:F"],
+     "a token of an unexpected type is rejected"),
+    ("Parser._consume", [r"self\.current_token is None:T", r"self\.current_token:F"], "running out of tokens is rejected"),
+    ("Parser._parse_rule", [r"\w+ in self\.valid_categories:F"], "an unknown category is rejected"),
+    ("Parser._parse_rule", [r"self\.current_token\.type in _STARTERS:F"], "trailing symbols after a rule are rejected"),
+    ("Parser._parse_superiors", [r"\w+ in self\.rules_by_name:F", r"self\.rules_by_name\.get\(\w+\) is None:T"],
+     "a superior that is not yet defined is rejected"),
+    ("Parser._parse_superiors", [r"len\((.+)\) == len\(set\(\1\)\):F", r"len\(set\((.+)\)\) == len\(\1\):F"],
+     "duplicate superiors are rejected"),
+    ("Parser._parse_conditions", [r"self\.current_token\.type == TokenTypes\.GROUP_CLOSE:F",
+                                  r"TokenTypes\.GROUP_CLOSE == self\.current_token\.type:F"], "an unbalanced group is rejected"),
+    ("Parser._parse_conditions", [r"self\.current_token is None:T", r"self\.current_token:F"], "missing conditions are rejected"),
+    ("Parser._parse_single_condition", [r"self\.current_token is None:T", r"self\.current_token:F"], "a rule ending in 'not' is rejected"),
+    ("Parser._parse_cds", [r"^conditions:F", r"len\(conditions\) == 0:T"], "an empty cds() is rejected"),
+    ("Conditions.__init__", [r"\w+ in unique_operands:T", r"\w+ in \w+:T"], "a repeated operand is rejected"),
+    ("MinimumCondition.__init__", [r"len\(self\.options\) == len\(options\):F", r"len\(options\) == len\(self\.options\):F"],
+     "repeated minimum() options are rejected"),
+    ("MinimumCondition.__init__", [r"count < 1:T", r"count >= 1:F", r"1 > count:T", r"count <= 0:T"],
+     "minimum() with a count below 1 is rejected"),
+    ("ScoreCondition.__init__", [r"score < 0:T", r"score >= 0:F", r"0 > score:T"], "a negative minscore is rejected"),
+    ("DetectionRule.__init__", [r"conditions\.contains_positive_condition\(\):F"], "conditions without a positive requirement are rejected"),
+    ("DetectionRule.__init__", [r"extenders\.contains_positive_condition\(\):F"], "extenders without a positive requirement are rejected"),
 ]
 
 
-def r02_4(ctx: Ctx) -> None:
-    for qual, needle, what in REJECTIONS:
-        func = ctx.fn(RP, qual)
-        cfg = CFG(func)
-        hit = None
-        for node in walk_local(func):
-            if isinstance(node, ast.If) and needle in txt(node.test):
-                raising = [s for s in node.body if isinstance(s, ast.Raise)]
-                if raising:
-                    hit = (node, raising[0])
-                    break
-        if hit is None:
-            ctx.ob("R02.4", RP, func, qual, needle, False, what, detail="no `if <condition>: raise` found for this rejection")
+def _raise_literals(ctx: Ctx, qual: str):
+    """ [(raise statement, {(literal text, truth)} raw and resolved)] for every raise of the function """
+    from ..flow import facts_nnf, nnf_literals, path_facts, resolved_facts
+    func = ctx.fn(RP, qual, inline=True)
+    cfg = CFG(func)
+    out = []
+    for node in walk_local(func):
+        if not isinstance(node, ast.Raise):
             continue
-        node, rs = hit
-        # the true arm cannot reach a normal exit: every path through the T edge ends in raise
-        test_n = cfg.n(node)
-        starts = [dst for dst, label in cfg.succ[test_n] if label == "T"]
-        reach = set()
-        for s in starts:
-            reach |= {s} | cfg.reach([s])
-        escapes = cfg.exit in reach and not all(
-            cfg.exit not in ({s} | cfg.reach([s], avoid=[cfg.n(rs)])) for s in starts)
-        ok = cfg.exit not in {x for s in starts for x in ({s} | cfg.reach([s], avoid=[]))} or not escapes
-        # simpler and exact: the raise is the first statement reached; body of the if ends in raise
-        body_ends_in_raise = isinstance(node.body[-1], ast.Raise) or isinstance(node.body[0], ast.Raise)
-        ok = body_ends_in_raise and not any(isinstance(s, (ast.Return, ast.Continue, ast.Break)) for s in node.body)
-        # not swallowed: no enclosing try in this function catches it
+        lits = nnf_literals(facts_nnf(path_facts(cfg, node))) | nnf_literals(resolved_facts(cfg, node, ctx.repo, RP))
+        for level in (0, 1):
+            lits |= nnf_literals(resolved_facts(cfg, node, ctx.repo, RP, max_depth=level))
         swallowed = any(isinstance(a, ast.Try) and a.handlers and any(node is n for b in a.body for n in ast.walk(b))
                         for a in walk_local(func))
-        ctx.ob("R02.4", RP, node, qual, needle, ok and not swallowed, what, form=f"if {txt(node.test)}: {stmt_key(rs)}")
+        out.append((node, lits, swallowed))
+    return func, cfg, out
+
+
+def _find_rejection(raises, alternatives):
+    for node, lits, swallowed in raises:
+        for alt in alternatives:
+            pattern, _, pol = alt.rpartition(":")
+            for text, truth in lits:
+                if truth == (pol == "T") and re.search(pattern, text.replace('"', "'")):
+                    return node, text, swallowed
+    return None
+
+
+def r02_4(ctx: Ctx) -> None:
+    from ..flow import deciding_test, facts_nnf, nnf_literals, path_facts
+    cache = {}
+    for qual, alternatives, what in REJECTIONS:
+        if qual not in cache:
+            cache[qual] = _raise_literals(ctx, qual)
+        func, cfg, raises = cache[qual]
+        hit = _find_rejection(raises, alternatives)
+        thing = alternatives[0].rpartition(":")[0].replace("\\", "")
+        if hit is None:
+            ctx.ob("R02.4", RP, func, qual, thing, False, what, detail="no raise conditioned on this test found")
+            continue
+        node, text, swallowed = hit
+        ctx.ob("R02.4", RP, node, qual, thing, not swallowed, what, form=f"raise under `{text}`")
     # acceptance is dominated by the checks: the rule is stored only after the duplicate-name check
-    init = ctx.fn(RP, "Parser.__init__")
-    cfg = CFG(init)
-    stores = [n for n in walk_local(init) if isinstance(n, ast.Assign) and "self.rules_by_name[rule.name]" in txt(n.targets[0])]
-    checks = [n for n in walk_local(init) if isinstance(n, ast.If) and "rule.name in self.rules_by_name" in txt(n.test)]
-    ok = bool(stores) and bool(checks) and cfg.dominates(cfg.n(checks[0]), cfg.n(stores[0]))
+    init, cfg, raises = cache["Parser.__init__"]
+    stores = [n for n in walk_local(init) if isinstance(n, ast.Assign) and isinstance(n.targets[0], ast.Subscript)
+              and txt(n.targets[0].value) == "self.rules_by_name" and txt(n.targets[0].slice).endswith(".name")]
+    ok = bool(stores)
+    for store in stores:
+        lits = nnf_literals(facts_nnf(path_facts(cfg, store)))
+        ok = ok and any(re.fullmatch(r"\w+\.name in self\.rules_by_name", text) and not truth for text, truth in lits)
     ctx.ob("R02.4", RP, stores[0] if stores else init, "Parser.__init__", "store after duplicate check", ok,
            "a rule is registered only after the duplicate-name rejection", form="")
     # the unknown-identifier check is on every normal path out of __init__
-    unk = [n for n in walk_local(init) if isinstance(n, ast.If) and txt(n.test) == "unknown"]
-    ok = bool(unk) and cfg.postdominates(cfg.n(unk[0]), cfg.entry)
-    ctx.ob("R02.4", RP, unk[0] if unk else init, "Parser.__init__", "unknown identifiers on all paths", ok,
-           "every normal completion of parsing passes the unknown-identifier check", form="")
-    srcs = bound_from(init, "unknown")
-    ok = len(srcs) == 1 and txt(srcs[0]) == "identifiers - self.signature_names" and \
-        [txt(v) for v in bound_from(init, "identifiers")] == ["find_condition_identifiers(self._consumed_tokens)"]
-    ctx.ob("R02.4", RP, init, "Parser.__init__", "unknown = identifiers - signatures", ok,
-           "the rejected set is the identifiers of all consumed condition tokens minus the known signatures",
-           form="; ".join(txt(s) for s in srcs))
+    unknown = _find_rejection(raises, REJECTIONS[0][1])
+    ok = False
+    if unknown is not None:
+        decided = deciding_test(cfg, unknown[0])
+        ok = decided is not None and cfg.postdominates(decided[0], cfg.entry)
+    ctx.ob("R02.4", RP, unknown[0] if unknown else init, "Parser.__init__", "unknown identifiers on all paths", ok,
+           "every normal completion of parsing passes the unknown-identifier check (the rejected set is the identifiers of "
+           "all consumed condition tokens minus the known signatures)", form=unknown[1] if unknown else "")
 
 
 def r02_5(ctx: Ctx) -> None:
+    from ..flow import inline_reaching
     qual = "Parser._parse_superiors"
     func = ctx.fn(RP, qual)
-    rets = [r for r in walk_local(func) if isinstance(r, ast.Return)]
-    loops = [n for n in walk_local(func) if isinstance(n, ast.For) and txt(n.iter) == "superiors"]
+    cfg = CFG(func)
+    rets = [r for r in walk_local(func) if isinstance(r, ast.Return) and r.value is not None]
+    direct = {t.id for n in walk_local(func) if isinstance(n, ast.Assign) and isinstance(n.value, ast.Call)
+              and last_attr(n.value) == "_parse_comma_separated_ids" for t in n.targets if isinstance(t, ast.Name)}
     ok = False
     form = ""
-    if len(rets) == 1 and loops:
-        loop = loops[0]
-        var = txt(loop.target)
-        parents = [n for n in walk_local(loop) if isinstance(n, ast.Assign)
-                   and txt(n.value) == f"self.rules_by_name[{var}].superiors"]
-        if parents:
-            pname = txt(parents[0].targets[0])
-            upd = [c for c in calls(loop) if last_attr(c) == "update" and txt(c.args[0]) == pname]
-            if upd:
-                acc = txt(upd[0].func.value)  # type: ignore[attr-defined]
-                rtxt = txt(rets[0].value)
-                ok = acc in rtxt and "superiors" in rtxt.replace(acc, "") and "union" in rtxt or "|" in rtxt
-                form = f"for {var} in superiors: {acc}.update({pname}); return {rtxt}"
+    if len(rets) == 1 and len(direct) == 1:
+        named = direct.pop()
+        loops = [n for n in walk_local(func) if isinstance(n, ast.For) and isinstance(n.target, ast.Name)
+                 and named in {x.id for x in ast.walk(inline_reaching(cfg, n, n.iter, keep={named})) if isinstance(x, ast.Name)}]
+        for loop in loops:
+            var = loop.target.id
+            for upd in [c for c in calls(loop) if last_attr(c) in ("update", "extend") and len(c.args) == 1]:
+                source = txt(inline_reaching(cfg, upd, upd.args[0], keep={var}))
+                if source not in (f"self.rules_by_name[{var}].superiors", f"self.rules_by_name.get({var}).superiors"):
+                    continue
+                acc = txt(upd.func.value)  # type: ignore[attr-defined]
+                result = inline_reaching(cfg, rets[0], rets[0].value, keep={acc, named})
+                names = {x.id for x in ast.walk(result) if isinstance(x, ast.Name)}
+                joins = any(isinstance(x, ast.BinOp) and isinstance(x.op, ast.BitOr) for x in ast.walk(result)) or \
+                    any(isinstance(x, ast.Call) and last_attr(x) == "union" for x in ast.walk(result))
+                ok = {acc, named} <= names and joins
+                form = f"for {var} in {txt(loop.iter)}: {txt(upd)}; return {txt(result)}"
     ctx.ob("R02.5", RP, rets[0] if rets else func, qual, "transitive closure", ok,
            "the returned superiors are the named ones united with each named superior's own (already closed) superiors",
            form=form)
@@ -536,10 +562,16 @@ def r02_6(ctx: Ctx) -> None:
     ctx.ob("R02.6", RP, records[0], qual, "recorded value", ok, "the token recorded is the token being consumed",
            form=txt(records[0]))
     # alias substitution splices the alias tokens in front of the remaining tokens
+    from ..flow import facts_nnf, inline_reaching, nnf_literals, path_facts
     splice = [n for n in walk_local(func) if isinstance(n, ast.Assign) and txt(n.targets[0]) == "self.tokens"]
-    ok = len(splice) == 1 and txt(splice[0].value) == "iter(self.aliases[self.current_token.identifier] + list(self.tokens))"
-    gs = guards(splice[0], stop=func) if splice else []
-    ok = ok and any("self.current_token.identifier in self.aliases" in txt(t) and pol for t, pol in gs)
+    ok = len(splice) == 1
+    if ok:
+        value = txt(inline_reaching(cfg, splice[0], splice[0].value))
+        ok = value == "iter(self.aliases[self.current_token.identifier] + list(self.tokens))"
+        lits = set()
+        for expr, truth in path_facts(cfg, splice[0]):
+            lits |= nnf_literals(facts_nnf([(inline_reaching(cfg, expr, expr), truth)]))
+        ok = ok and ("self.current_token.identifier in self.aliases", True) in lits
     ctx.ob("R02.6", RP, splice[0] if splice else func, qual, "alias splice", ok,
            "an alias name is replaced by its tokens, spliced before the rest of the stream (textual substitution)",
            form=stmt_key(splice[0]) if splice else "")
